@@ -412,6 +412,32 @@ for _n, _o in (("add", "add"), ("sub", "sub"), ("mul", "mul"), ("div", "div")):
     handles(f"__i{_n if _n != 'div' else 'truediv'}__", f"{_n}_")(_inplace(_o))
 
 
+@handles("addcmul")
+def _addcmul(func, args, kwargs):
+    """input + value * tensor1 * tensor2"""
+    a, t1, t2 = args[0], args[1], args[2]
+    v = kwargs.get("value", 1)
+    prod = HANDLERS["mul"](torch.mul, (t1, t2), {})
+    if not (isinstance(v, (int, float)) and v == 1):
+        prod = HANDLERS["mul"](torch.mul, (prod, v), {})
+    return HANDLERS["add"](torch.add, (a, prod), {})
+
+
+@handles("addcdiv")
+def _addcdiv(func, args, kwargs):
+    """input + value * tensor1 / tensor2"""
+    a, t1, t2 = args[0], args[1], args[2]
+    v = kwargs.get("value", 1)
+    q = HANDLERS["div"](torch.div, (t1, t2), {})
+    if not (isinstance(v, (int, float)) and v == 1):
+        q = HANDLERS["mul"](torch.mul, (q, v), {})
+    return HANDLERS["add"](torch.add, (a, q), {})
+
+
+handles("addcmul_")(_inplace("addcmul"))
+handles("addcdiv_")(_inplace("addcdiv"))
+
+
 def _unop(f, keep_dtype=True):
     def h(func, args, kwargs):
         a = args[0]
